@@ -2,20 +2,26 @@ import AiocoapModel.Basic.Bytes
 import AiocoapModel.Blockwise.BlockOpt
 import AiocoapModel.Blockwise.TimeoutDict
 /-!
-Model of the block-wise server machinery, as of the six `fix:` commits of C06 on top of the
+Model of the block-wise server machinery, as of the nine `fix:` commits of C06 on top of the
 pinned snapshot (ValueError → 4.08; later block never answered with the complete body; stale
 rendering dropped when a newer complete response is sent; a final block longer than its block size
 → 4.00; a completed assembly leaves the spool; a kept rendering is dropped when the handler raises
-on a newer request for the beginning):
+on a newer request for the beginning; block 0 is held to its block size like every later block
+→ 4.00; the assembled request carries the Block2 option of the FINAL block, absent if that block has
+none; an observable resource runs block-wise requests through the same spool and cache):
 
 * `_extract_block_key`                     aiocoap/blockwise.py:18-35
   (`remote.blockwise_key` of the UDP remote: transports/udp6.py:263-265)
 * `Message.get_cache_key`                  aiocoap/message.py:382-415
 * `Message._extract_block`                 aiocoap/message.py:422-443
-* `Message._append_request_block`          aiocoap/message.py:445-475
-* `Block1Spool.feed_and_take`              aiocoap/blockwise.py:60-96
-* `Block2Cache.extract_or_insert`          aiocoap/blockwise.py:99-169
-* `Resource._render_to_pipe`               aiocoap/interfaces.py:416-444
+* `Message._append_request_block`          aiocoap/message.py:445-479
+* `BlockwiseTuple.is_valid_for_payload_size`  aiocoap/optiontypes.py:194-203
+* `Block1Spool.feed_and_take`              aiocoap/blockwise.py:60-101
+* `Block2Cache.extract_or_insert`          aiocoap/blockwise.py:104-174
+* `Resource._render_blockwise` / `_render_to_pipe`   aiocoap/interfaces.py:416-452
+* the entry of `ObservableResource._render_to_pipe`  aiocoap/interfaces.py:500-530
+  (`ObsEntry`, `obsIn`: which requests take the way of `Resource._render_to_pipe`, and that the
+  first response of an observation is produced by the same `_render_blockwise`)
 * rendering of the exceptions that leave `_render_to_pipe`
   (`ContinueException.to_message`, `ConstructionRenderableError.to_message`,
    `pipe.error_to_message`)               aiocoap/blockwise.py:38-57, error.py:82-99, pipe.py:232-285
@@ -25,7 +31,8 @@ the same resource while it renders); a handler maps the assembled request to a r
 or raises (`Outcome.error`: the code the exception is rendered with — `RenderableError.to_message().code`,
 5.00 for any other exception).  Not modelled: token / message id / message type of the stored
 request (`_append_request_block` copies them from the latest block), the diagnostic payload of
-error responses, `ObservableResource._render_to_pipe`.
+error responses, and of `ObservableResource._render_to_pipe` everything after the first response
+(the Observe option put on it, notifications: C08).
 -/
 namespace Aiocoap.BwServer
 
@@ -91,9 +98,10 @@ inductive AppendErr
   | badRequest    -- `raise error.BadRequest("Payload size does not match Block1")`
 deriving Repr, DecidableEq
 
-/-- the size test of `_append_request_block` (message.py:450-461): a block with the more flag
-has exactly the block size (BERT: a multiple of 1024); a final block of a size exponent below 7
-is at most one block long (a final BERT block is not constrained) -/
+/-- the size test of `_append_request_block` (message.py:450-461), which is also
+`BlockwiseTuple.is_valid_for_payload_size` (optiontypes.py:194-203) that `feed_and_take` applies to
+block 0: a block with the more flag has exactly the block size (BERT: a multiple of 1024); a final
+block of a size exponent below 7 is at most one block long (a final BERT block is not constrained) -/
 def sizeOk (b : Blk) (len : Nat) : Bool :=
   if b.more then (len == b.size || (b.szx == 7 && len % b.size == 0))
   else (b.szx == 7 || decide (len ≤ b.size))
@@ -109,7 +117,8 @@ def appendRequestBlock (self next : Msg) (b : Blk) : Except AppendErr Msg :=
     .ok { self with
           payload := self.payload ++ next.payload
           block1 := some b
-          block2 := if !b.more && next.block2.isSome then next.block2 else self.block2 }
+          -- message.py:467-472: the final block's Block2 option, also when it is absent
+          block2 := if !b.more then next.block2 else self.block2 }
   else .error .valueError
 
 /-- outcome of `Block1Spool.feed_and_take` -/
@@ -117,7 +126,8 @@ inductive Feed
   | pass (m : Msg)      -- returns the (re)assembled request
   | cont (b : Blk)      -- `ContinueException(block1)`
   | incomplete          -- `IncompleteException`
-  | badRequest          -- `error.BadRequest` out of `_append_request_block`
+  | badRequest          -- `error.BadRequest`: block 0 in `feed_and_take`, later blocks out of
+                        -- `_append_request_block`
   | keyError            -- a `KeyError` escaping from the final lookup (shown unreachable)
 deriving Repr, DecidableEq
 
@@ -141,8 +151,11 @@ def feedAndTake (T now : Nat) (sp : TD Key Msg) (req : Msg) : TD Key Msg × Feed
     let k := blockKey req
     let stored : Except (TD Key Msg × Feed) (TD Key Msg) :=
       if b.num = 0 then
+        -- blockwise.py:77-84: `is_valid_for_payload_size` (the same test as `sizeOk`), checked
+        -- before anything is stored or looked up
+        if !sizeOk b req.payload.length then .error (sp, .badRequest)
         -- silently discarding any old incomplete operation
-        .ok (sp.set T now k req)
+        else .ok (sp.set T now k req)
       else
         match sp.get T now k with
         | none => .error (sp, .incomplete)
@@ -318,5 +331,26 @@ def run (T : Nat) (st : RState) : List In → List StepOut
 def stateAfter (T : Nat) (st : RState) : List In → RState
   | [] => st
   | i :: rest => stateAfter T (step T st i).1 rest
+
+-- ObservableResource._render_to_pipe (its entry) ------------------------------------------------
+
+/-- `pipe.request.opt.observe == 0`: the first Observe option (number 6) of the request has the
+value 0, i.e. the empty value in canonical encoding (`_single_value_view`: options.py:44-60) -/
+def observeZero (req : Msg) : Bool :=
+  match req.opts.find? (fun o => o.1 == OBSERVE) with
+  | some o => o.2.isEmpty
+  | none => false
+
+/-- the two ways through `ObservableResource._render_to_pipe` -/
+inductive ObsEntry
+  | plain     -- `return await Resource._render_to_pipe(self, pipe)`: no observation is set up
+  | observe   -- `add_observation(...)`, then `first_response = await self._render_blockwise(req)`
+deriving Repr, DecidableEq
+
+/-- interfaces.py:503-516: only a request with Observe: 0 that carries no Block1 option and asks for
+the beginning of the representation enters the observation branch.  Either way the response (the
+first response of the observation) is produced by `Resource._render_blockwise`, i.e. by `step`. -/
+def obsEntry (req : Msg) : ObsEntry :=
+  if !observeZero req || req.block1.isSome || !isFresh req then .plain else .observe
 
 end Aiocoap.BwServer
